@@ -307,6 +307,16 @@ def check_eigen(A, out, lam):
                     and getattr(V2, "dtype", None) == np.quaternion, "wrong shape/dtype"):
             out.equal_bits("quaternion_eigenvectors:equals the pair's eigenvectors", F(V2), V)
     out.true("accessors:argument unchanged", ahash(Aq) == h0, "input array modified")
+    # ---- same buffer, new contents: the spectrum must be that of the argument's current VALUE
+    A2 = 0.5 * A + (1.0 + a) * ref.qeye(n)            # Hermitian, spectrum 0.5*lam + (1+a)
+    Aq[...] = Q(A2)
+    ok, w3 = out.call("quaternion_eigenvalues(reused buffer)", _quiet, E.quaternion_eigenvalues, Aq)
+    if ok:
+        w3 = np.asarray(w3)
+        if out.true("quaternion_eigenvalues(reused buffer):shape", w3.shape == (n,), f"{w3.shape}"):
+            want = np.sort(0.5 * np.asarray(lam, dtype=float) + (1.0 + a))
+            out.le("quaternion_eigenvalues(reused buffer):spectrum of the NEW contents",
+                   float(np.max(np.abs(np.sort(np.real(w3)) - want))), 1000.0 * (n + 3) ** 2 * ref.U * (1.0 + 2.0 * a))
     out.sample = dict(out.sample or {}, n=n, normA=a, V_unitarity_defect=defect,
                       eigenpair_residual_rel=(r1 / a) if a else 0.0,
                       reconstruction_residual_rel=(r2 / a) if a else 0.0)
